@@ -215,6 +215,9 @@ fn run_local(ctx: &mut Ctx, content: Arc<Vec<u8>>, ranges: Vec<(u64, usize)>, si
         Some(p) => items.into_iter().take(p + 1).collect(),
         None => items,
     };
+    if eof_at.is_some() {
+        simkit::count("fault:EarlyEofLocal");
+    }
     if check_items(ctx, &items, &content, &ranges, upto, first_short.is_some(), &desc) {
         ctx.verdict.nontrivial = ranges.len() >= 2;
         ctx.verdict.shape = ranges.len() as u64 ^ ((first_short.is_some() as u64) << 20) ^ (1 << 21);
@@ -272,7 +275,11 @@ fn run_http(ctx: &mut Ctx, content: Arc<Vec<u8>>, ranges: Vec<(u64, usize)>, sin
                         _ => 0,
                     };
                     if single {
-                        // read_at buffers the whole body: a failed attempt delivers nothing
+                        // read_at collects the body until it has the requested size: an attempt
+                        // that fails earlier delivers nothing, one that fails later succeeded
+                        if got == total {
+                            break;
+                        }
                     } else {
                         delivered += got;
                     }
@@ -394,4 +401,15 @@ fn run_http(ctx: &mut Ctx, content: Arc<Vec<u8>>, ranges: Vec<(u64, usize)>, sin
     if n_fail > 0 {
         simkit::count("retry-taken");
     }
+    simkit::with(|s| {
+        for f in script.iter().flatten() {
+            s.count(match f {
+                NetFault::Refuse => "fault:ConnectionRefused",
+                NetFault::CutAfter(_) => "fault:BodyCut",
+                NetFault::EarlyEof(_) => "fault:EarlyEof",
+                NetFault::Stall(_) => "fault:StallAndTimeout",
+                _ => "fault:Other",
+            });
+        }
+    });
 }
